@@ -184,14 +184,23 @@ func loopVarRetained(p *core.Prog, f *ssa.Function) string {
 						}
 					}
 				case *ssa.MakeClosure:
-					if x.Referrers() != nil {
-						for _, r2 := range *x.Referrers() {
+					var follow func(v ssa.Value, d int)
+					follow = func(v ssa.Value, d int) {
+						if v.Referrers() == nil || d > 3 {
+							return
+						}
+						for _, r2 := range *v.Referrers() {
 							switch y := r2.(type) {
 							case *ssa.Store, *ssa.MapUpdate, *ssa.Return, *ssa.Go, *ssa.Defer:
 								out = "a closure over a variable shared by all iterations (" + al.Comment + ") outlives the iteration at " + p.InstrPos(y)
+							case *ssa.ChangeType:
+								follow(y, d+1)
+							case *ssa.MakeInterface:
+								follow(y, d+1)
 							}
 						}
 					}
+					follow(x, 0)
 				case *ssa.Store:
 					if x.Val == ssa.Value(al) {
 						if _, local := x.Addr.(*ssa.Alloc); !local {
